@@ -11,19 +11,24 @@ TITLE = 'Time zone conversions round-trip'
 PROPS = ['Props/C34']
 PROOF_TIMEOUT = 1500
 RULE = ('instants at -2h, -1h-1us, -1h, -1s, -1us, 0, +1us, +1s, +1h-1us, +1h, +2h around transitions (every transition of '
-        'every zone in the thorough tier; all of America/New_York plus 300 random transitions in quick), random '
+        'every zone in the thorough tier; all of America/New_York plus 200 random transitions in quick), random '
         'instants 1900-2040 and far instants (years 2, 9998, +-2^31 s) for every zone; local times at -2h, -1s, -1us, 0, '
         '+1us, +1s, +2h around both local breakpoints of those transitions (local end of the old interval, local start '
         'of the new one) and the middle of the gap/overlap, each with favor None, old offset, new offset (sometimes an '
         'unrelated one); the dates around those transitions and random dates, with and without zone. A case is '
         'non-trivial when it lies within 2 h (instants) / 26 h (random local times) of a transition; date cases are '
         'counted non-trivial because they are taken at transitions.')
-TRUSTED = ['py2v translator (harness/py2v.py), extended for subscripts, bisect, Optional ==, early return: validated on '
-           'every run by evaluating the translated Zone._index/_index_dt/offset/dt_offset/offset_untils and the running '
-           'methods on the same arguments',
-           'Model/MomentTz.v: hand model of TzInfo.fromutc/utcoffset, ts_to_dt, dt_to_ts, date_to_ts, ts_to_date over '
-           'integers (datetime arithmetic of CPython: astimezone, +, -, replace), compared with real datetime objects '
-           'on every run',
+TRUSTED = ['translators harness/py2v.py (Zone._index, _index_dt, offset, dt_offset, offset_untils expression) and '
+           'harness/mo2v.py (utc_to_ts_ms, TzInfo.utcoffset, TzInfo.fromutc, ts_to_dt, dt_to_ts, ts_to_date, date_to_ts): '
+           'fail-closed, run on every run, validated on every run by evaluating the GENERATED definitions (vm_compute) '
+           'and the running functions on the same arguments',
+           'Model/MomentDt.v + the CPython glue emitted by mo2v: datetime/timedelta/date arithmetic over integer ticks '
+           '(replace, +, -, date(), utcoffset() dispatch, astimezone = fromutc of (self - utcoffset); the shortcut '
+           '`tz is self.tzinfo` of astimezone and naive.astimezone are not modelled), compared with real datetime '
+           'objects on every run; module constants and caching glue (EPOCH, EPOCH_UTC, TZ_UTC, get_zone, tzinfo, '
+           'get_tzinfo, TzInfo.__init__, signatures) are pinned by AST equality',
+           'Model/MomentTz.v (hand model) is no longer trusted: every function in it is proved pointwise equal to the '
+           'generated one (Proofs/Moment_bridge.v) and the property is restated about the generated functions',
            'Lib/PyList.v: py_bisect_right is CPython\'s bisect_right loop; py_getitem yields an arbitrary value `oob` '
            'where Python raises IndexError (theorems hold for every oob, and C34_subscripts_in_range shows guarded '
            'subscripts are in range)',
@@ -36,7 +41,8 @@ ASSUMPTIONS = ['zoned date round trip: the date exists in the zone (decidable da
                'skipped at date-line changes, where no instant has that date)',
                'zone data = the 594 zones of tzdata.data as moment.Zone holds them at run time (regenerated each run)',
                'timestamps are exact multiples of 1 us; every integer instant is covered, no range bound']
-TECHNIQUE = ('Coq proof over a model translated from source (py2v) and zone data regenerated from tzdata.data on every '
+TECHNIQUE = ('Coq proof over code translated from source on every run (py2v: Zone core; mo2v: datetime level, bridged '
+             'pointwise to the hand model) and zone data regenerated from tzdata.data on every '
              'run (vm_compute over all zones) + differential cases against real datetime objects + impl oracle')
 LEVEL_TEXT = ('Kernel-checked theorems: every bundled zone passes a boolean interval check (vm_compute over the regenerated '
               'data) that is proved to imply dt_to_ts(ts_to_dt(ts, zone)) = ts for ALL integer instants, that every local '
@@ -44,7 +50,7 @@ LEVEL_TEXT = ('Kernel-checked theorems: every bundled zone passes a boolean inte
               'skipped, the offset starting at the transition whose gap it falls in, the UTC date round trip, and the zoned '
               'date round trip (date_to_ts after fix 8feac94) for every bundled zone and every date that exists in the zone '
               '(a second boolean per-zone check, vm_compute over the data); 7 zone/date pairs are whole skipped days.')
-LEVEL_NOTE = ('Trusted: Coq kernel + vm_compute, py2v translator and the hand-written datetime layer (both validated '
+LEVEL_NOTE = ('Trusted: Coq kernel + vm_compute, the two translators and the CPython datetime primitives (validated '
               'differentially each run), float rounding outside the integer model.')
 
 NSHARDS = 8
@@ -430,7 +436,7 @@ def pick_transitions(ctx, zones):
   if ctx.tier == 'thorough':
     return allp
   feat = [(zd, k) for zd in zones if zd.name in FEATURED[:1] for k in range(len(zd.untils))]
-  rest = ctx.rng.sample(allp, min(len(allp), 300))
+  rest = ctx.rng.sample(allp, min(len(allp), 200))
   return feat + rest
 
 
